@@ -474,6 +474,7 @@ Proof.
     destruct i; destruct Hd as (D1 & D2 & D3); constructor; rewrite ?D1, ?D2, ?P0, ?P1, ?S1, ?L, ?PF; try assumption; try lia.
   - pose proof (transfer_lp_ok _ _ _ _ _ _ H) as (_ & _ & _ & _ & _ & _ & _ & _ & S1 & _).
     split. eapply transfer_lp_inv; eassumption. lia.
+  - discriminate.
 Qed.
 
 Lemma apply_inv k s o : 0 < c_minliq k -> Inv k s -> Inv k (apply k s o) /\ (0 < supply s -> 0 < supply (apply k s o)).
@@ -541,6 +542,7 @@ Proof.
     destruct i; destruct Hd as (D1 & D2 & D3); rewrite D1, D2; apply Z.mul_le_mono_nonneg_r; nia.
   - pose proof (transfer_lp_ok _ _ _ _ _ _ H) as (_ & _ & _ & _ & B0 & B1 & P0 & P1 & S1 & _).
     unfold res0, res1. rewrite B0, B1, P0, P1, S1. lia.
+  - discriminate.
 Qed.
 
 (* deposit then immediately withdraw what was minted: never more than was deposited *)
